@@ -100,6 +100,33 @@ class ModuleInfo(object):
         return f'<module {self.name}>'
 
 
+_FLIP_OPS = {ast.Lt: ast.Gt, ast.Gt: ast.Lt, ast.LtE: ast.GtE,
+             ast.GtE: ast.LtE, ast.Eq: ast.Eq, ast.NotEq: ast.NotEq}
+
+
+def _is_literal(e):
+    if isinstance(e, ast.Constant):
+        return True
+    if isinstance(e, ast.UnaryOp) and isinstance(
+            e.op, (ast.USub, ast.UAdd)) and isinstance(
+                e.operand, ast.Constant):
+        return True
+    return False
+
+
+def _canonical_compares(tree):
+    """`1 == x`, `0 < n`, `'raw' != s` are rewritten with the literal on
+    the right (`x == 1`, `n > 0`, `s != 'raw'`): the rules recognise
+    conditions in one orientation only.  Positions are kept."""
+    for n in ast.walk(tree):
+        if isinstance(n, ast.Compare) and len(n.ops) == 1 \
+                and type(n.ops[0]) in _FLIP_OPS \
+                and _is_literal(n.left) \
+                and not _is_literal(n.comparators[0]):
+            n.left, n.comparators = n.comparators[0], [n.left]
+            n.ops = [_FLIP_OPS[type(n.ops[0])]()]
+
+
 def _set_parents(tree):
     for node in ast.walk(tree):
         for child in ast.iter_child_nodes(node):
@@ -161,6 +188,7 @@ class ProgramDB(object):
         except SyntaxError as e:
             self.parse_failures.append((str(path), str(e)))
             raise AnalysisError(f'cannot parse {path}: {e}')
+        _canonical_compares(tree)
         _set_parents(tree)
         relpath = str(path.relative_to(self.repo_root))
         self.modules[name] = ModuleInfo(name, path, relpath, tree, source)
